@@ -93,6 +93,13 @@ pub fn base_instant(r: &mut Rng, host: &Option<HostRule>) -> i128 {
         // within +-2 s of t, or exactly on it
         match r.below(5) { 0 => t, 1 => t - 1, 2 => t - 1 - r.below(2 * 1_000_000_000) as i128, 3 => t + r.below(2 * 1_000_000_000) as i128, _ => t - NS }
     };
+    if r.chance(1, 10) {
+        // up to 14 h before or after the start of a month (of a year): a default or host zone is still / already
+        // in the other month there
+        let m = if r.chance(1, 3) { 1 } else { 1 + r.below(12) as u32 };
+        let t = instant(y, m, 1, 0, 0, 0) + r.range(-14 * 3600, 14 * 3600) as i128 * NS;
+        return clamp_instant(t);
+    }
     let t = match r.below(12) {
         0 => { let t = instant(y + 1, 1, 1, 0, 0, 0); near(r, t) }                       // year boundary
         1 => { let m = 1 + r.below(12) as u32; let t = instant(y, m, 1, 0, 0, 0); near(r, t) } // month boundary
